@@ -179,6 +179,22 @@ def struct_Struct(I, args, kw):
     return I.ctx.alloc(StructObj(args[0]))
 
 
+def struct_unpack_from(I, args, kw):
+    """struct.unpack_from(fmt, buffer, offset=0): needs at least calcsize(fmt) bytes from offset, else struct.error"""
+    fmt, data = args[0], args[1]
+    off = args[2] if len(args) > 2 else kw.get('offset', 0)
+    f = fmt.lstrip('<>=@!')
+    b = to_bytestr(data)
+    if b is None:
+        raise Undecided('struct.unpack_from of %r' % (data,))
+    need = sum({'I': 4, 'i': 4, 'Q': 8}[c] for c in f)
+    ok = to_z3(b.n) - to_z3(off) >= need
+    if not (I.ctx.decide(ok, 'unpack_from-size') if is_sym(ok) else ok):
+        I.raise_('StructError')
+    sl = ByteStr(need, (lambda i, b=b, off=off: b.at(to_z3(i) + to_z3(off))))
+    return struct_unpack(I, [fmt, sl], {})
+
+
 class BImg(object):
     """mmap object over a file: `arr(i)` byte at i (z3 Int), `size` its length.  T-MMAP."""
 
